@@ -104,6 +104,8 @@ def adversarial(rng, doc):
         "self-referential-variable": "rule x {\n let va = %%va\n %%va !empty or %s exists\n}\nrule y {\n %s {\n  let vb = %%vb.z\n  %%vb exists\n }\n}" % (k, k),
         "cyclic-variable-via-function": "let va = count(%%va)\nlet vb = join(%%vc, \",\")\nlet vc = to_upper(%%vb)\nrule x {\n %%va exists\n}\nrule y {\n %%vb exists or %s exists\n}" % k,
         "cyclic-variable-via-filter": "let va = %s[ this == %%va ]\nrule x {\n %%va !empty\n}" % k,
+        "recursive-parameterised-rule": "rule f(p) {\n f(%%p)\n}\nrule x {\n f(%s)\n}" % k,
+        "mutually-recursive-parameterised-rules": "rule f(p) {\n %%p exists\n g(%%p)\n}\nrule g(q) {\n f(%%q) or %%q !exists\n}\nrule x {\n not g(%s)\n}" % k,
         "wrong-arity": "rule p(a, b) { %%a == %%b }\nrule x { p(%s) }" % k,
         "unknown-param-rule": "rule x { nosuch(%s) }" % k,
         "unknown-variable": "rule x { %%nosuch == 1 }",
@@ -150,6 +152,10 @@ def run_all_channels(ctx, rtext, dtext, cls, ovf=None):
     out.append(("payload-structured", ctx.w.run({"k": "cli", "argv": ["validate", "--payload", "--structured", "-S", "none", "-o", "sarif"], "stdin": json.dumps({"rules": [rtext], "data": [dtext]})})))
     out.append(("validate-files", ctx.w.run({"k": "cli", "argv": ["validate", "-r", "{S}/r.guard", "-d", "{S}/d.yaml", "-S", "all", "-t", "CFNTemplate", "-v"], "files": {"r.guard": rtext, "d.yaml": dtext}})))
     out.append(("parse-tree", ctx.w.run({"k": "cli", "argv": ["parse-tree", "-p"], "stdin": rtext})))
+    # the other documented rules-file extension, as a file and picked up from a directory, through the structured reporters
+    fmt = ["json", "junit", "sarif", "yaml"][len(rtext) % 4]
+    out.append(("validate-ruleset-" + fmt, ctx.w.run({"k": "cli", "argv": ["validate", "-r", "{S}/x.ruleset", "-d", "{S}/d.json", "--structured", "-S", "none", "-o", fmt], "files": {"x.ruleset": rtext, "d.json": dtext}})))
+    out.append(("validate-rules-dir", ctx.w.run({"k": "cli", "argv": ["validate", "-r", "{S}/rules", "-d", "{S}/d.json", "-S", "all"], "files": {"rules/a.guard": rtext, "rules/b.ruleset": rtext, "rules/notes.txt": "x", "d.json": dtext}})))
     return out
 
 
@@ -507,11 +513,11 @@ def main(tier, seed):
     res.extra["distinct_parse_error_positions"] = len(pos)
     shapes = [k for k in res.counts if k.startswith("shape:")]
     mr, sp = res.counts["mutated_rules"], res.counts["mutated_rules_still_parse"]
-    floor = {"cases": (res.cases, 5000), "adversarial_shapes": (len(shapes), 34), "mutated_rules_still_parsing_percent": (int(100 * sp / max(1, mr)), 5),
-             "distinct_parse_error_positions": (len(pos), 100), "channels": (len(res.extra.get("channels", set())), 15), "memcheck_jobs": (njobs, 40),
+    floor = {"cases": (res.cases, 5000), "adversarial_shapes": (len(shapes), 36), "mutated_rules_still_parsing_percent": (int(100 * sp / max(1, mr)), 5),
+             "distinct_parse_error_positions": (len(pos), 100), "channels": (len(res.extra.get("channels", set())), 18), "memcheck_jobs": (njobs, 40),
              "overflow_checked_sweep_jobs": (res.counts["sweep_jobs"], 2500)}
     return core.finish("C08", tier, seed, res, t0,
-                       rule="(1) grammar-generated rule texts with 1-3 byte/token mutations x documents; (2) 37 adversarial grammatical shapes + generated programs with "
+                       rule="(1) grammar-generated rule texts with 1-3 byte/token mutations x documents; (2) 39 adversarial grammatical shapes + generated programs with "
                             "this-filters/keys filters/functions x generated and mutated documents; (3) 22 hostile documents + mutated documents as data, parameter "
                             "file, test spec and payload envelope; (4) real processes incl. rulegen and non-UTF-8 files; valgrind memcheck on the YAML loader / payload / "
                             "FFI paths; (5) crash sweep: the quick workloads of C18 and C13 (thorough: also C01, C03, C10, C15, C11, C17) replayed on the "
